@@ -71,7 +71,7 @@ def run(r):
                     why = f"round trip differs: == is {rec['eq']}, fields that differ: {rec['fields_differ']}"
                 else:
                     rp = rec["replace"]
-                    badr = [k for k in ("new_values", "distinct_object", "type_kept", "others_kept", "no_sharing", "unknown_field_rejected", "original_unchanged") if rp.get(k) is not True]
+                    badr = [k for k in ("new_values", "distinct_object", "type_kept", "others_kept", "falsy_values_set", "no_sharing", "unknown_field_rejected", "original_unchanged") if rp.get(k) is not True]
                     if "error" in rp or badr:
                         why = f"replace(): {rp.get('error') or badr}"
                 if why:
